@@ -241,6 +241,14 @@ namespace occa {
             state.pushOperator(&opToken);
           }
           else if (opToken.opType() & operatorType::pairEnd) {
+            if (state.scopedStates.size() < 2) {
+              // No pair is open (possible in #if expressions, which are not pair-checked)
+              state.hasError = true;
+              opToken.printError("Could not find an opening '"
+                                 + ((pairOperator_t*) opToken.op)->pairStr
+                                 + "'");
+              return;
+            }
             state.pushOperator(&opToken);
             state.popPair();
             closePair();
